@@ -83,7 +83,7 @@ def cmake_text(rel, rng=None, rich=False):
 
 
 def gen_tree(rng, max_depth=4, p_sub=0.6, mixed_case=True, noncmake=True, rich=False, ensure_top=True, case_twins=False,
-             index_module=False, symlinks=False, dirlinks=False, follow=False):
+             index_module=False, symlinks=False, dirlinks=False, follow=False, deep_chain=0, many_files=0):
     t = Tree()
     twins = {"a": "A", "b": "B", "top": "Top", "m": "M", "util": "Util", "sub": "Sub", "aa": "AA", "core": "Core", "zz": "ZZ"}
 
@@ -125,6 +125,19 @@ def gen_tree(rng, max_depth=4, p_sub=0.6, mixed_case=True, noncmake=True, rich=F
                 for f in t.files_of(d):
                     if f.lower().endswith(".cmake"):
                         t.links.add(os.path.join(d, f))
+    if deep_chain:
+        # scale: a chain of `deep_chain` directories below each other, a CMake file in every one of them
+        d = ""
+        for k in range(deep_chain):
+            d = os.path.join(d, f"l{k + 1}")
+            t.dirs.add(d)
+            t.files[os.path.join(d, f"lvl{k + 1}.cmake")] = cmake_text(os.path.join(d, f"lvl{k + 1}.cmake"), rng, rich)
+    if many_files:
+        # scale: one directory with several hundred entries
+        d = rng.choice(sorted(x for x in t.dirs if x.count(os.sep) < 3))
+        for k in range(many_files):
+            nm = f"m{k:04d}.cmake" if k % 9 else f"m{k:04d}.txt"
+            t.files[os.path.join(d, nm)] = cmake_text(nm, rng, False) if nm.endswith(".cmake") else "x\n"
     if index_module:
         # a module that is itself called index.cmake: its page and the directory's index.rst compete for one file name
         d = rng.choice(sorted(t.dirs))
